@@ -15,9 +15,10 @@ EXPLANATION = ('(R20.1) no directory listing is reachable (call graph) from any 
                'transitively owns a descriptor-holding field, no leak primitive exists, into_raw_fd results flow into close; '
                '(R20.4) the number of distinct descriptor-opening roots simultaneously held in live locals, maximised over all '
                'abstract states of each entry point (callee peaks added at abstract write-side/read-side operations), is <= 2 '
-               'without and <= 3 with a consistency checker. Syscalls inside one std/filetime/tempfile primitive are trusted O(1).')
-FLOORS = {'R20.1': 12, 'R20.2': 6, 'R20.3': 8, 'R20.4': 20}
-FIXTURE_RULES = ['R20.3']
+               'without and <= 3 with a consistency checker; (R20.5) the crate contains no advisory-lock call and no exclusive-create '
+               '(lock-file) open. Syscalls inside one std/filetime/tempfile primitive are trusted O(1).')
+FLOORS = {'R20.1': 12, 'R20.2': 6, 'R20.3': 8, 'R20.4': 20, 'R20.5': 1}
+FIXTURE_RULES = ['R20.3', 'R20.5']
 
 LOOKUPS = ['plain::Cache::get', 'plain::Cache::touch', 'sharded::Cache::get', 'sharded::Cache::touch']
 WRITES = ['plain::Cache::set', 'plain::Cache::put', 'sharded::Cache::set', 'sharded::Cache::put']
@@ -126,6 +127,24 @@ def r20_3(ctx):
     return out
 
 
+LOCKISH = ('std::fs::OpenOptions::create_new', 'std::fs::File::create_new', 'std::fs::File::lock', 'std::fs::File::lock_shared',
+           'std::fs::File::try_lock', 'std::fs::File::try_lock_shared', 'libc::flock', 'libc::lockf', 'libc::fcntl')
+
+
+def r20_5(ctx):
+    """"no lock is ever taken": the crate contains no advisory-lock call and no exclusive-create open (O_CREAT|O_EXCL by
+    hand is the lock-file idiom: whoever creates the marker owns the critical section and a crashed owner leaves it
+    held).  Temporary files are created through the tempfile crate, which is not this.  Expected count: zero."""
+    found = []
+    for k, calls in ctx.cg.ext_calls.items():
+        for (np, cls, site) in calls:
+            if np in LOCKISH or cls == 'lock':
+                found.append('%s %s in %s' % (site['span'], np, ctx.B[k]['path']))
+    return [inst('R20.5', 'crate|no lock or lock-file primitive', not found,
+                 'no flock/lockf/fcntl/File::lock call and no exclusive-create open anywhere in the crate' if not found else
+                 'lock or lock-file primitive present: %s' % found[:3], path=found)]
+
+
 def peak(q):
     best = 0
     arg = None
@@ -214,8 +233,8 @@ def param_roots(q):
 
 def run(ctx):
     from runner import collect
-    return collect(ctx, r20_1, r20_2, r20_3, r20_4)
+    return collect(ctx, r20_1, r20_2, r20_3, r20_4, r20_5)
 
 
 def run_fixture(fctx):
-    return {'R20.3': sum(1 for i in r20_3(fctx) if not i['ok'])}
+    return {'R20.3': sum(1 for i in r20_3(fctx) if not i['ok']), 'R20.5': sum(1 for i in r20_5(fctx) if not i['ok'])}
